@@ -931,6 +931,25 @@ func c15GateBeforeCompute(c *Ctx) {
 	if tr.Outcome.Kind == mon.Error && !sawValidateErr {
 		c.Count("gate-model:rejected-before-validate", 1) // e.g. Init refused first: fine
 	}
+	if tr.Outcome.Kind == mon.Error && sawValidateErr && len(g.Nodes) == 1 && len(g.Nodes[0].Outputs) > 0 && g.Nodes[0].Outputs[0] != "" && c.Idx%2 == 0 {
+		// the same graph with a node of an unknown operator type BEHIND the refused node: Run executes
+		// nodes in order, so the refusal of the gate is what the caller is told, in the same words
+		g2 := *g
+		g2.Nodes = append(append([]mon.GNode{}, g.Nodes...), mon.GNode{Op: "NoSuchOperatorVerif", Name: "later", Inputs: []string{g.Nodes[0].Outputs[0]}, Outputs: []string{"zz_later"}})
+		g2.Outputs = append(append([]mon.GInput{}, g.Outputs...), mon.GInput{Name: "zz_later", NoType: true})
+		o2 := mon.RunGraph(&g2, feed)
+		c.Eval(1)
+		c.Count("gate-model:with-an-unknown-operator-behind-the-refused-node", 1)
+		var ie *ops.InputError
+		switch {
+		case o2.Kind == mon.Panic:
+			c.Violation("gate-model:"+name+":panic", "%s", o2.Describe())
+		case o2.Kind != mon.Error:
+			c.Violation("gate-model:"+name+":bad-input-list-computed", "with an unknown operator behind the node Run answered %s", trunc(o2.Describe(), 200))
+		case !errors.As(o2.Err, &ie) && errors.As(tr.Outcome.Err, &ie):
+			c.Violation("gate-model:"+name+":refusal-masked-by-a-later-node", "alone the node's gate refuses with %v; with a node of an unknown operator type behind it Run reports %v", tr.Outcome.Err, o2.Err)
+		}
+	}
 }
 
 // c15SameInstanceSequence: the verdict of the gate must not depend on what the
